@@ -653,7 +653,19 @@ def _execute(scn, keep_objects=False):
             th = si.obj_si(angular_position)
             w = si.obj_si(angular_speed)
             t = si.obj_si(time)
-            v = eval_load(spec, th, w, t)
+            if spec.get('noise'):
+                # control experiment: conditioning of the load function
+                # itself with respect to rounding of its arguments
+                sg = 1 if len(ctx.load_calls) % 2 else -1
+                v = eval_load(spec, th * (1 + sg * spec['noise']),
+                              w * (1 - sg * spec['noise']),
+                              t * (1 + sg * spec['noise']))
+            else:
+                v = eval_load(spec, th, w, t)
+            if spec.get('noise'):
+                # rounding-level perturbation at every call (used only by the
+                # numerical-stability control experiment of the differentials)
+                v *= 1.0 + spec['noise'] * (1 if len(ctx.load_calls) % 2 else -1)
             ctx.load_calls.append({'seq': next_seq(), 'epoch': ctx.epoch,
                                    'k': len(pt.time) - 1, 't': t, 'th': th,
                                    'w': w, 'v': v})
